@@ -245,7 +245,8 @@ def ser_region(r):
     return body
 
 
-def ser(node):
+def ser(node, data_spelling=False):
+    """data_spelling: the switch is written data-meta-interpolation (option enable_data_attributes)"""
     if isinstance(node, Region):
         return ser_region(node)
     s = '<e'
@@ -254,8 +255,8 @@ def ser(node):
         q = '"' if a.ctx == 'dq' else "'"
         s += ' %s=%s%s%s' % (names[i], q, ser_region(a), q)
     if node.switch is not None:
-        s += ' meta:interpolation="%s"' % node.switch
-    return s + '>' + ''.join(ser(k) for k in node.kids) + '</e>'
+        s += (' data-meta-interpolation="%s"' if data_spelling else ' meta:interpolation="%s"') % node.switch
+    return s + '>' + ''.join(ser(k, data_spelling) for k in node.kids) + '</e>'
 
 
 def expect(node, ex, on, comments_on, out, altmode=False, stats=None):
@@ -342,15 +343,16 @@ def recval(i):
     return ['v%d' % i, 'x<%d>&"\'' % i, i, None, 'é%d' % i][i % 5] if i % 7 else 'v%d' % i
 
 
-def render_real(src, env, comments_on):
+def render_real(src, env, comments_on, data_attributes=False):
     from chameleon import PageTemplate
+    cfg = {'enable_data_attributes': True} if data_attributes else {}
     log = []
 
     def f(i):
         log.append(i)
         return recval(i)
     try:
-        out = PageTemplate(src, enable_comment_interpolation=comments_on)(f=f, **env)
+        out = PageTemplate(src, enable_comment_interpolation=comments_on, **cfg)(f=f, **env)
     except Exception as e:
         try:
             msg = str(e).split('\n')[0][:160]
@@ -364,7 +366,10 @@ def one_case(ctx, rng, env, stats):
     ids = itertools.count(1)
     root = gen_el(rng, 0, ids, True)
     comments_on = rng.random() < .8
-    src = ser(root)
+    data_spelling = rng.random() < .2
+    if data_spelling:
+        ctx.mon('switch-written-as-data-attribute')
+    src = ser(root, data_spelling)
     ex = Expect(env, recval)
     out = []
     try:
@@ -372,7 +377,7 @@ def one_case(ctx, rng, env, stats):
     except Exception:
         return False       # an expression raises in plain Python: not a case
     exp = ''.join(out)
-    got, log = render_real(src, env, comments_on)
+    got, log = render_real(src, env, comments_on, data_spelling)
     ctx.mon('compared')
     ctx.mon('log-compared')
     ctx.case(key=(shape(root), comments_on), nontrivial=nontrivial(root),
@@ -389,7 +394,8 @@ def one_case(ctx, rng, env, stats):
             key = 'dollar-dollar-kept-where-nothing-interpolated'
         ctx.violation(key, 'template %r (comment interpolation %s)\n   rendered %r log %r\n   expected %r log %r' % (
             src, comments_on, got, log, exp, ex.log),
-            {'kind': 'doc', 'src': src, 'comments_on': comments_on, 'expected': exp, 'expected_log': ex.log})
+            {'kind': 'doc', 'src': src, 'comments_on': comments_on, 'expected': exp, 'expected_log': ex.log,
+             'data_attributes': data_spelling})
     return True
 
 
@@ -409,7 +415,7 @@ def run(ctx):
 
 def replay(data):
     env = exprs.make_env()
-    got, log = render_real(data['src'], env, data['comments_on'])
+    got, log = render_real(data['src'], env, data['comments_on'], data.get('data_attributes', False))
     text = 'source   %r\nexpected %r log %r\nrendered %r log %r' % (
         data['src'], data['expected'], data['expected_log'], got, log)
     return got != data['expected'] or log != data['expected_log'], text
